@@ -388,6 +388,13 @@ impl Speaker {
                 bgp::Message::RouteRefresh { .. } => {}
                 bgp::Message::Update(u) => {
                     self.update_times.push(now_ms);
+                    if crate::verif_net::trace_on() {
+                        match &u {
+                            bgp::Update::Reach { entries, attr, .. } => eprintln!("[trace] speaker {} <- reach {:?} med={:?}", self.addr, entries.iter().map(|e| format!("{}#{}", e.nlri, e.path_id)).collect::<Vec<_>>(), attr.iter().find(|a| a.code() == 4).and_then(|a| a.value())),
+                            bgp::Update::Unreach { entries, .. } => eprintln!("[trace] speaker {} <- unreach {:?}", self.addr, entries.iter().map(|e| format!("{}#{}", e.nlri, e.path_id)).collect::<Vec<_>>()),
+                            bgp::Update::EndOfRib(f) => eprintln!("[trace] speaker {} <- eor {:?}", self.addr, f),
+                        }
+                    }
                     match u {
                         bgp::Update::Reach { family, entries, nexthop, attr } => {
                             for e in entries {
